@@ -352,31 +352,46 @@ def run(cx):
                    "anemo::network::connection_manager::ActivePeersInner::add")
 
     with cx.ob("C03.10", "R-MUSTPASS", "every dial the application asks for is carried out: connect()/connect_with_peer_id() answer only with the manager's reply to a ConnectRequest(addr, expected id) they sent - no shortcut that answers without reaching the address") as ob:
-        NI_ = "anemo::network::NetworkInner"
-        co = cx.coroutine(f"{NI_}::connect")
-        o = Origins(co)
-        sn = [c for c in co.calls_to("tokio::sync::mpsc::bounded::Sender::send") if not co.is_cleanup(c.bb)]
-        ob.floor(sn, 1, "mailbox send in NetworkInner::connect", exact=True)
-        rets = co.return_blocks()
-        ob.count(len(rets))
-        ob.require(bool(rets) and all(co.all_paths_pass(0, [r], [sn[0].bb], succ=co.succ_noawait) for r in rets), "connect/always-asks-the-manager",
-                   "NetworkInner::connect has a path that returns without sending a ConnectRequest (a dial answered without dialing)", co.path, co.loc(sn[0].bb))
-        req = strip_identity(o.of_operand(sn[0].args[1]))
-        okr = req[0] == "agg" and str(req[2]).endswith("ConnectRequest") and len(req[3]) == 3 and is_param_or_upvar(req[3][0], "addr") and is_param_or_upvar(req[3][1], "peer_id") \
-            and term_has_call(req[3][2], "oneshot::channel")
-        ob.require(okr, "connect/request-carries-the-arguments", f"the request sent is {show(req)[:120]}", co.path, co.loc(sn[0].bb))
-        rx = [c for c in co.calls() if await_target(c) and "oneshot::Receiver" in await_target(c) and not co.is_cleanup(c.bb)]
-        same = len(rx) == 1 and okr and [x[3] for x in walk(o.of_operand(rx[0].args[0])) if x[0] == "call" and name_matches(x[1], "oneshot::channel")] == \
-            [x[3] for x in walk(req[3][2]) if x[0] == "call" and name_matches(x[1], "oneshot::channel")]
-        ob.require(same, "connect/awaits-that-reply", "the reply awaited is not the receiver of the channel whose sender went into the request", co.path)
-        oks = [x for x in walk(o.of_local(0)) if x[0] == "agg" and str(x[2]).endswith("Result::Ok")]
-        ob.require(all(term_has_call(x, "Future::poll") for x in oks), "connect/ok-is-the-reply", f"NetworkInner::connect builds an Ok of its own: {[show(x)[:60] for x in oks]}", co.path)
-        for fn_, pin in (("connect", False), ("connect_with_peer_id", True)):
-            cb_ = cx.coroutine(f"anemo::network::Network::{fn_}")
-            cs_ = [c for c in cb_.calls_to(f"{NI_}::connect") if not cb_.is_cleanup(c.bb)]
-            ob.require(len(cs_) == 1, f"{fn_}/forwards", f"Network::{fn_} does not call NetworkInner::connect exactly once", cb_.path)
-            if len(cs_) == 1:
-                a2 = strip_identity(Origins(cb_).of_operand(cs_[0].args[2]))
-                okp = (a2[0] == "agg" and str(a2[2]).endswith("Option::Some") and is_param_or_upvar(a2[3][0], "peer_id")) if pin else (a2[0] == "agg" and str(a2[2]).endswith("Option::None"))
-                ob.require(okp, f"{fn_}/expected-id", f"Network::{fn_} passes {show(a2)[:60]} as the expected identity", cb_.path)
+        check_connect_always_dials(ob, cx)
+
+    with cx.ob("C03.11", "R-STICKY", "the manager carries every ConnectRequest out: the mailbox arm hands each one to dial_peer (no 'already connected' shortcut that answers without dialing) - C08.2 re-evaluated") as ob:
+        from . import c08
+        sub = cx.__class__("C03", prog, cx.tier, cx.config, cx.tree, repo=cx.repo)
+        c08.run(sub)
+        w = [x for x in sub.obs if x.oid in ['C08.2']]
+        ob.count(sum(x.evals for x in w))
+        bad = [v for x in w for v in x.violations if 'loop/mailbox' in v.key]
+        ob.require(len(w) == 1 and not bad, "connect-request/always-dialed", "a ConnectRequest can be answered without a dial: " + "; ".join(str(v.msg) for v in bad)[:300], "anemo::network::connection_manager::ConnectionManager::start")
+
+
+def check_connect_always_dials(ob, cx):
+    """body of C03.10 (also used by C01.11): the connect API always sends the ConnectRequest and answers with the manager's reply"""
+    prog = cx.prog
+    NI_ = "anemo::network::NetworkInner"
+    co = cx.coroutine(f"{NI_}::connect")
+    o = Origins(co)
+    sn = [c for c in co.calls_to("tokio::sync::mpsc::bounded::Sender::send") if not co.is_cleanup(c.bb)]
+    ob.floor(sn, 1, "mailbox send in NetworkInner::connect", exact=True)
+    rets = co.return_blocks()
+    ob.count(len(rets))
+    ob.require(bool(rets) and all(co.all_paths_pass(0, [r], [sn[0].bb], succ=co.succ_noawait) for r in rets), "connect/always-asks-the-manager",
+               "NetworkInner::connect has a path that returns without sending a ConnectRequest (a dial answered without dialing)", co.path, co.loc(sn[0].bb))
+    req = strip_identity(o.of_operand(sn[0].args[1]))
+    okr = req[0] == "agg" and str(req[2]).endswith("ConnectRequest") and len(req[3]) == 3 and is_param_or_upvar(req[3][0], "addr") and is_param_or_upvar(req[3][1], "peer_id") \
+        and term_has_call(req[3][2], "oneshot::channel")
+    ob.require(okr, "connect/request-carries-the-arguments", f"the request sent is {show(req)[:120]}", co.path, co.loc(sn[0].bb))
+    rx = [c for c in co.calls() if await_target(c) and "oneshot::Receiver" in await_target(c) and not co.is_cleanup(c.bb)]
+    same = len(rx) == 1 and okr and [x[3] for x in walk(o.of_operand(rx[0].args[0])) if x[0] == "call" and name_matches(x[1], "oneshot::channel")] == \
+        [x[3] for x in walk(req[3][2]) if x[0] == "call" and name_matches(x[1], "oneshot::channel")]
+    ob.require(same, "connect/awaits-that-reply", "the reply awaited is not the receiver of the channel whose sender went into the request", co.path)
+    oks = [x for x in walk(o.of_local(0)) if x[0] == "agg" and str(x[2]).endswith("Result::Ok")]
+    ob.require(all(term_has_call(x, "Future::poll") for x in oks), "connect/ok-is-the-reply", f"NetworkInner::connect builds an Ok of its own: {[show(x)[:60] for x in oks]}", co.path)
+    for fn_, pin in (("connect", False), ("connect_with_peer_id", True)):
+        cb_ = cx.coroutine(f"anemo::network::Network::{fn_}")
+        cs_ = [c for c in cb_.calls_to(f"{NI_}::connect") if not cb_.is_cleanup(c.bb)]
+        ob.require(len(cs_) == 1, f"{fn_}/forwards", f"Network::{fn_} does not call NetworkInner::connect exactly once", cb_.path)
+        if len(cs_) == 1:
+            a2 = strip_identity(Origins(cb_).of_operand(cs_[0].args[2]))
+            okp = (a2[0] == "agg" and str(a2[2]).endswith("Option::Some") and is_param_or_upvar(a2[3][0], "peer_id")) if pin else (a2[0] == "agg" and str(a2[2]).endswith("Option::None"))
+            ob.require(okp, f"{fn_}/expected-id", f"Network::{fn_} passes {show(a2)[:60]} as the expected identity", cb_.path)
 
